@@ -113,6 +113,19 @@ def compare(inp, out):
             gb = [list(m.bytes()) for m in got]
         if gb != out:
             return 'wrong-output/' + how, '%s gave %r expected %r' % (how, gb, out)
+        # the caller owns what it was given: changing it must not show in later results
+        for m in got:
+            try:
+                if how == 'tokenizer':
+                    m[:] = [0xf8]
+                else:
+                    m.time = 77
+                    if hasattr(m, 'channel'):
+                        m.channel = (m.channel + 1) % 16
+                    elif m.type == 'sysex':
+                        m.data = (0x55,)
+            except Exception:
+                pass
     return None
 
 
